@@ -128,6 +128,12 @@ pub fn fixed_cases() -> Vec<Case> {
     s.threshold = ordered_float::OrderedFloat(0.0);
     push("fixed-threshold-zero-nofb", b"abc def ghi".to_vec(), s);
     push("fixed-declared", b"<?xml version=\"1.0\" encoding=\"windows-1251\"?><a>\xcf\xf0\xe8\xe2\xe5\xf2 \xec\xe8\xf0</a>".to_vec(), d.clone());
+    // a declaration naming an encoding the codec crate resolves but detection never probes (one case per such label)
+    for l in unprobed_labels() {
+        let mut b = format!("Content-Type: text/plain; charset={}\n\n", l).into_bytes();
+        b.extend_from_slice(b"plain text after a declared but unprobed charset, with a few words more");
+        push("fixed-declared-unprobed", b, d.clone());
+    }
     push("fixed-declared-wrong", b"<meta charset=utf-16le>\xcf\xf0\xe8\xe2\xe5\xf2 \xec\xe8\xf0, \xea\xe0\xea \xe4\xe5\xeb\xe0".to_vec(), d.clone());
     v
 }
@@ -260,6 +266,26 @@ pub fn run(o: &DetectOpts) -> serde_json::Value {
                 c.settings.threshold = ordered_float::OrderedFloat(*rng.pick(&[0.2f32, 0.2, 0.3, 0.5, 1.0]));
                 c.settings.preemptive_behaviour = !rng.chance(1, 5);
             }
+            if (o.focus == "C06" || o.focus == "C09") && rng.chance(1, 6) {
+                // BOTH hints at once and they disagree: a mark, then a declaration of ANOTHER encoding, then a body both can
+                // read (ASCII, sometimes with a few characters of the declared page): the order declaration > mark > ascii > utf-8
+                let ms = marks();
+                let (menc, m) = *rng.pick(&ms);
+                let denc = *rng.pick(&["windows-1252", "iso-8859-15", "latin1", "koi8-r", "windows-1251", "utf-8", "iso-8859-7", "ascii", "cp1254"]);
+                let kw = *rng.pick(&["charset=", "encoding=\"", "coding: "]);
+                let mut b = m.to_vec();
+                let mut text = format!("<?xml version=\"1.0\" {}{}\"?> ", kw, denc);
+                text.push_str(&String::from_utf8_lossy(&ascii_text(&mut rng, 200)));
+                if menc.starts_with("utf-16") {
+                    b.extend_from_slice(&encode_text(&text, menc).unwrap_or_default());
+                } else {
+                    b.extend_from_slice(text.as_bytes());
+                }
+                c.bytes = b;
+                c.kind = format!("mark-{}+declared-{}", menc, denc);
+                c.settings = default_settings();
+                c.settings.preemptive_behaviour = !rng.chance(1, 6);
+            }
             if (o.focus == "C07" || o.focus == "C18") && rng.chance(1, 2) {
                 // mark-heavy stream
                 let ms = marks();
@@ -320,8 +346,10 @@ pub fn run(o: &DetectOpts) -> serde_json::Value {
         // mid-size payloads: above the 500,000-byte prefix limit, at most 1,000,000 bytes -- strict decoding of the
         // WHOLE input still applies (no lazy mode), for single-byte candidates too
         for k in 0..o.mid {
-            let target = match k % 4 { 0 => 500_001 + rng.below(200_000), 1 => 1_000_000, 2 => 500_001, _ => 700_000 + rng.below(300_000) };
-            let (mut b, enc) = legacy_text(&mut rng, target);
+            // k = 0: EXACTLY 1,000,000 bytes (the last size below lazy mode, the last size at which alternatives are folded),
+            // Latin text that several sibling code pages read alike; k = 1: exactly 500,001
+            let target = match k % 4 { 0 => 1_000_000, 1 => 500_001, 2 => 500_001 + rng.below(200_000), _ => 700_000 + rng.below(300_000) };
+            let (mut b, enc) = if k % 4 == 0 { legacy_text_in(&mut rng, &corpus, target, "windows-1252") } else { legacy_text(&mut rng, target) };
             if k % 3 == 2 {
                 // a byte the code page does not define / an anomaly in the second half
                 let p = 500_000 + rng.below(b.len() - 500_000);
@@ -329,6 +357,9 @@ pub fn run(o: &DetectOpts) -> serde_json::Value {
             }
             let mut s = default_settings();
             s.include_encodings = vec![enc.to_string(), "utf-8".into(), "ascii".into(), "iso-8859-3".into()];
+            if k % 4 == 0 {
+                s.include_encodings = vec!["windows-1252".into(), "iso-8859-1".into(), "iso-8859-15".into(), "windows-1254".into(), "utf-8".into(), "ascii".into()];
+            }
             if k % 2 == 1 {
                 s.steps = rng.range(1, 12);
                 s.chunk_size = rng.range(16, 2048);
@@ -342,7 +373,7 @@ pub fn run(o: &DetectOpts) -> serde_json::Value {
         //    followed by other content): the sampled chunks beyond the pre-checked prefix hold bytes some code pages do not define
         //  5 legacy single-byte text throughout
         for kk in 0..o.big {
-            let k = [0usize, 1, 4, 2, 3, 5][kk % 6] + 6 * (kk / 6);
+            let k = (if o.focus == "C13" { [5usize, 4, 0, 1, 2, 3] } else { [0usize, 1, 4, 2, 3, 5] })[kk % 6] + 6 * (kk / 6);
             if k % 6 >= 4 {
                 let target = 1_000_001 + rng.below(300_000);
                 let (tail, enc) = if k % 6 == 4 && (k / 6) % 2 == 0 { legacy_text_in(&mut rng, &corpus, target, "windows-1251") } else { legacy_text(&mut rng, target) };
@@ -358,7 +389,13 @@ pub fn run(o: &DetectOpts) -> serde_json::Value {
                     s.steps = rng.range(1, 12);
                     s.chunk_size = rng.range(16, 2048);
                 }
-                cases.push(Case { kind: format!("large-v{}", k % 6), bytes: b, settings: s });
+                if o.focus == "C13" {
+                    // a window that covers the whole input: every character is to be analysed, in lazy mode as well
+                    s.chunk_size = *rng.pick(&[1024usize, 4096, 65536]);
+                    s.steps = b.len() / s.chunk_size + 1 + rng.below(3);
+                    s.include_encodings = vec![enc.to_string(), "utf-8".into(), "ascii".into()];
+                }
+                cases.push(Case { kind: format!("large-v{}{}", k % 6, if o.focus == "C13" { "-covered" } else { "" }), bytes: b, settings: s });
                 continue;
             }
             let k = (k % 6) + 4 * (k / 6);
@@ -523,9 +560,18 @@ pub fn run(o: &DetectOpts) -> serde_json::Value {
                         found.push(Found { prop: "C13", what: format!("the result (chaos) for the same input and threshold {} changes when the same bytes were analysed under threshold {} just before", t0, other.threshold.0), known: None });
                     }
                 }
+                // a covered input above 1,000,000 bytes (lazy mode): the text of the best match, presented in the encodings of
+                // the case's include list, must get the same verdict and chaos in each
+                if focus == "C13" && c.kind.ends_with("-covered") {
+                    if let Some(t) = ms.get_best().and_then(|b| b.decoded_payload()) {
+                        let encs: Vec<String> = c.settings.include_encodings.iter().filter(|e| e.as_str() != "ascii").cloned().collect();
+                        let (f, _) = check_c13_text_in(t, &c.settings, false, Some(&encs));
+                        found.extend(f);
+                    }
+                }
                 let wf = c.settings.steps >= 1;
                 let deep = !same || o.replay.is_some() || idx % 4 == 0;
-                if wf && c.bytes.len() <= 40000 && (focus == "C09" || focus == "C06" || deep) {
+                if wf && (c.bytes.len() <= 40000 || (focus == "C09" && c.kind.starts_with("mid-"))) && (focus == "C09" || focus == "C06" || deep) {
                     extra_runs += 1;
                     found.extend(check_c09_forward(&c.bytes, &c.settings, ms));
                     if focus == "C09" || focus == "C06" || !same || o.replay.is_some() {
